@@ -12,6 +12,7 @@
     rle1 <hex>           -> <hex>          (Spec.rle1)
     unrle1 <hex>         -> ok <hex> | none (Spec.unRle1)
     rlelen <hex>         -> <n>            (Spec.rleLen)
+    specblock <cap> <hex> -> <k> <hex>     (k = Spec.pack cap xs, Spec.rle1 (xs.take k))
 -/
 import LbzVerif.Spec.Rle1
 import LbzVerif.Model.Collect
@@ -70,6 +71,12 @@ def handle (cmd : String) (args : List String) : Option String :=
   | "pack", [cap, hx] =>
     some <| match cap.toNat?, parseHex hx with
     | some cap, some inp => toString (Spec.pack cap inp)
+    | _, _ => "bad-args"
+  | "specblock", [cap, hx] =>
+    some <| match cap.toNat?, parseHex hx with
+    | some cap, some inp =>
+      let k := Spec.pack cap inp
+      s!"{k} {toHex (Spec.rle1 (inp.take k))}"
     | _, _ => "bad-args"
   | "rle1", [hx] =>
     some <| match parseHex hx with
